@@ -532,3 +532,38 @@ def _check_status(F, R):
         r8.site("StatusList2021::new decided at %d sizes (all residues mod 8 around 0, 131072, 2^20, 10^6) over %d path(s): %s" % (len(dom), len(paths), bad == 0))
     # len() = bytes * 8 is C12-R3
     r8.floor(1)
+
+    # ---------------------------------------------------------------- R9 the purpose keeps its name through every string form (T7)
+    # StatusPurpose is written three ways: serde (`rename_all = "lowercase"`, used by entries), Display (written into the list
+    # credential's credentialSubject.statusPurpose) and FromStr (read back from it).  A list keeps its purpose through serialisation
+    # only if, for every variant, Display writes the lowercase variant name and FromStr maps exactly that name back to the variant.
+    r9 = R.rule("C12-R9", "T7", "StatusPurpose: Display(v) = lowercase name of v = serde name, and FromStr(Display(v)) = v, for every variant (a suspension list stays a suspension list through serialisation)")
+    SP = CR + "::StatusPurpose"
+    spa = F.adt(SP)
+    if r9.anchor(spa, SP):
+        import sibling as SB
+        names = [v["name"] for v in spa["variants"]]
+        ai = F.ast_item(SP)
+        r9.require(ai is not None and any("rename_all" in x and "lowercase" in x for x in ai["attrs"]), (SP, "serde-names"), "StatusPurpose is not serialised with rename_all = \"lowercase\"")
+        dfn = (F.find(r"^<%s as core::fmt::Display>::fmt$" % re.escape(SP)) or [None])[0]
+        pfn = (F.find(r"^<%s as core::str::traits::FromStr>::from_str$" % re.escape(SP)) or [None])[0]
+        if r9.require(dfn is not None and pfn is not None, (SP, "ANCHOR"), "Display / FromStr of StatusPurpose not found"):
+            for vn in names:
+                want = vn.lower()
+                try:
+                    ps = [q for q in sym.Evaluator(F, inline_depth=3).explore(dfn, args=[sym.V(vn), sym.Sym(("param", "f"))]) if q.complete]
+                except (sym.Abort, sym.TooManyPaths) as e:
+                    ps = []
+                outs = set()
+                for q in ps:
+                    pat, argv = SB.render_pattern(q)
+                    outs.add(pat if not argv else None)
+                r9.site("Display(%s) writes %s" % (vn, sorted(map(str, outs))))
+                r9.require(outs == {want}, (SP, "display", vn), "Display for StatusPurpose::%s writes %s, not \"%s\" (its serde name, which FromStr reads back)" % (vn, sorted(map(str, outs)), want))
+                try:
+                    ps = [q for q in sym.Evaluator(F, inline_depth=3).explore(pfn, args=[want]) if q.complete]
+                except (sym.Abort, sym.TooManyPaths) as e:
+                    ps = []
+                got = {sym.fmt(sym.term(q.ret)) for q in ps}
+                r9.require(got == {"Ok(%s)" % vn}, (SP, "from_str", vn), "FromStr for StatusPurpose maps \"%s\" to %s, not Ok(%s)" % (want, sorted(got), vn))
+    r9.floor(2)
